@@ -216,9 +216,21 @@ class TrigTime:
                 cls.dow2int[name[0:3]] = idx
 
     @classmethod
-    async def wait_until(
+    async def wait_until(cls, ast_ctx, *args, **kwargs):
+        """Wait for zero or more triggers, until an optional timeout."""
+        subs = []
+        try:
+            return await cls._wait_until(ast_ctx, subs, *args, **kwargs)
+        finally:
+            # release everything on every exit path, including cancellation of the waiting task
+            for notify_del, key, queue in subs:
+                notify_del(key, queue)
+
+    @classmethod
+    async def _wait_until(
         cls,
         ast_ctx,
+        subs,
         state_trigger=None,
         state_check_now=True,
         time_trigger=None,
@@ -322,6 +334,7 @@ class TrigTime:
             )
             if len(state_trig_ident) > 0:
                 await State.notify_add(state_trig_ident, notify_q)
+                subs.append((State.notify_del, state_trig_ident, notify_q))
         if event_trigger is not None:
             if isinstance(event_trigger, str):
                 event_trigger = [event_trigger]
@@ -339,6 +352,7 @@ class TrigTime:
                         State.notify_del(state_trig_ident, notify_q)
                     raise
             Event.notify_add(event_trigger[0], notify_q)
+            subs.append((Event.notify_del, event_trigger[0], notify_q))
         if mqtt_trigger is not None:
             if isinstance(mqtt_trigger, str):
                 mqtt_trigger = [mqtt_trigger]
@@ -356,6 +370,7 @@ class TrigTime:
                         State.notify_del(state_trig_ident, notify_q)
                     raise
             await Mqtt.notify_add(mqtt_trigger[0], notify_q, encoding=mqtt_trigger_encoding)
+            subs.append((Mqtt.notify_del, mqtt_trigger[0], notify_q))
         if webhook_trigger is not None:
             if isinstance(webhook_trigger, str):
                 webhook_trigger = [webhook_trigger]
@@ -375,6 +390,7 @@ class TrigTime:
             if webhook_methods is None:
                 webhook_methods = {"POST", "PUT"}
             Webhook.notify_add(webhook_trigger[0], webhook_local_only, webhook_methods, notify_q)
+            subs.append((Webhook.notify_del, webhook_trigger[0], notify_q))
 
         time0 = time.monotonic()
 
